@@ -53,7 +53,7 @@ def gen_segment_history(rng, n, strict=False, reject=False):
         if reject and rng.random() < .35:
             ops.append(rng.choice([
                 ['add_wrongclass'], ['set_wrongname', 'nk1_2' if seg != 'NK1' else 'pid_3', 'X'], ['add_otherlevel', name, val],
-                ['ctor_refused', name, rng.choice(['FOO', 'XYZ', 'Q1'])], ['set_basedt_foreign', name.lower()], ['children_assign_zfield', name, val],
+                ['ctor_refused', name, rng.choice(['FOO', 'XYZ', 'Q1'])], ['set_basedt_foreign', name.lower()], ['datatype_empty_children', name], ['children_assign_zfield', name, val],
                 ['add_otherversion', name, val], ['del', '%s_%d' % (seg.lower(), 19)], ['set', 'foo_1', 'X'], ['set_elem_wrongname', name.lower()],
                 ['replace_otherlevel', name.lower(), val], ['add_overflow', '%s_1' % seg, '1'], ['set_invalid_strict', name.lower()],
                 ['datatype_populated', name.lower()], ['deli', name.lower(), 7], ['setparent_otherlevel', name, val], ['set_basedt_refused', name.lower()], ['set_basedt_refused', name.lower(), 'long'], ['children_assign_refused', name, val]]))
@@ -551,6 +551,16 @@ def run_history(h):
                     if attr in ('name', 'value', 'version', 'parent', 'children', 'datatype', 'reference', 'classname', 'validation_level', 'encoding_chars', 'structure_by_name'):
                         attr = op[1]      # (NK1_2's long name is NAME: `segment.name = ...` is the element's own attribute, not a child)
                     setattr(root, attr, ST('x'))
+            elif kind == 'datatype_empty_children':
+                # a field of a complex datatype holding only components without content (added, never valued), one of them not the first;
+                # a change to another complex datatype is refused and leaves the field — and the root — encoding as before (seed C12-j)
+                ft = Field(op[1], version=v, validation_level=lvl)
+                if not is_base_datatype(ft.datatype, v) and ft.datatype not in (None, 'varies') and not h['strict']:
+                    f = root.add_field(op[1])
+                    f.add_component('%s_2' % f.datatype)
+                    spec.add(op[1], '^')
+                    substep()
+                    f.datatype = 'XPN' if f.datatype != 'XPN' else 'CX'
             elif kind == 'datatype_populated':
                 p = getattr(root, op[1])
                 # only where the change must be refused: a populated element of a complex datatype (on a base datatype
